@@ -13,7 +13,7 @@ from pytoniq_core.crypto.signature import sign_message, verify_sign
 PROP = 'C20'
 TRACE_MODULE = 'C20Trace.tla'
 RULE = ('channels: seeded key pairs, both orderings of the ids and equal ids (self-channel and forced equal ids), plaintext lengths '
-        '{0, 1, 15, 16, 17, 64, 1000}; sequences of 2-6 packets on one channel pair, every packet held until the end; signatures: genuine + altered message / key / signature; mnemonics from mnemonic_new (defaults, explicit count, with a password); distinct = '
+        '{0, 1, 15, 16, 17, 64, 1000, 65537}; sequences of 2-6 packets on one channel pair, every packet held until the end; signatures: genuine + altered message / key / signature; mnemonics from mnemonic_new (defaults, explicit count, with a password); distinct = '
         'distinct (key pair, plaintext) channels + signature cases')
 ASSUMPTIONS = ['X25519, Ed25519, AES-CTR, PBKDF2 are not specified in TLA+: the shared secret is recomputed with nacl.bindings.crypto_scalarmult, '
                'the reference ciphertext with Cryptodome AES-CTR under the key/iv that TLC checks against the spec layout',
@@ -89,6 +89,9 @@ def generate(tier, seed, ctx):
     q = tier == 'quick'
     out = []
     rb = lambda n: bytes(rng.getrandbits(8) for _ in range(n))
+    # plaintexts beyond 64 KiB (a slice-wise fast path would start here)
+    for n in ((65537,) if q else (65536, 65537, 131073)):
+        out.append(chan_record(rng, rb(32), rb(32), rb(n)))
     for k in range(8 if q else 300):
         out.append(chan_seq_record(rng, rb(32), rb(32), [rb(rng.choice([0, 1, 16, 17, 200])) for _ in range(rng.choice([2, 3, 6]))]))
     for k in range(40 if q else 1500):
